@@ -73,6 +73,15 @@ pub enum EOp {
     AddAffine(usize, usize),
     /// AffineRepr::into_group / From<&AffinePoint> for Element
     IntoGroup(usize),
+    /// P + (P + T) where T = G + (-1)G is the (0,-1) representative of the identity: the two summands
+    /// are the same element in its two representatives
+    AddOtherRep(usize),
+    /// P + decode(encode(P))
+    AddDecoded(usize),
+    /// hash_to_curve(r, -r) / hash_to_curve(r, r)
+    Hash2Related(Hex, bool),
+    /// a copy of the element is wiped with Zeroize and then encoded / formatted (result not judged)
+    ZeroizedCopyEncoded(usize),
 }
 
 #[derive(Clone, Debug, Serialize, Deserialize, PartialEq, Eq)]
